@@ -605,7 +605,7 @@ func usesBars(names []string) bool {
 func runIndicator(inst reflect.Value, inputs [][]float64, limit time.Duration) (outs [][]float64, hung bool) {
 	outs, hung = runIndicatorOnce(inst, inputs, limit)
 	if hung { // confirm with a generous limit: a loaded machine must not look like a deadlock
-		outs, hung = runIndicatorOnce(inst, inputs, 6*time.Second)
+		outs, hung = runIndicatorOnce(inst, inputs, 4*time.Second)
 	}
 	return outs, hung
 }
